@@ -8,9 +8,13 @@ import Bita.Spec.Tiling
 import Bita.Proofs.TryInit
 import Bita.Proofs.ChunkRule
 import Bita.Proofs.SpecChunks
+import Bita.Proofs.WriterDedup
+import Bita.Proofs.WriterDescr
+import Bita.Proofs.WriterOpen
 
 namespace Bita.Proofs
 open Bita Bita.Proto Bita.Spec
+open WriterDescr WriterOpen
 
 /-- The codec contract assumed for round trips (brotli/zstd/lzma are not modelled). -/
 def CodecOK (comp : Bytes → Bytes) (decomp : Nat → Bytes → Nat → Option Bytes) : Prop :=
@@ -56,7 +60,57 @@ theorem writer_invariants (H : Bytes → Bytes) (writer : String) (hw : writer =
     dict.sourceTotalSize = src.length ∧ dict.sourceChecksum = H src ∧
     dict.chunkerParams = some (paramsOf o.cfg o.hashLen) ∧ dict.metadata = o.metadata ∧
     dict.applicationVersion = Gen.pkgVersion.toUTF8.toList := by
-  sorry
+  intro dict stored hdr
+  have _ := hw
+  have inv := WriterDedup.inv_dedup H (srcChunks o.cfg src)
+  have hinj' := srcChunks_inj H o.cfg src hinj
+  have hds : dict.chunkDescriptors =
+      descrFrom H o.hashLen (storedBytes writer (codecOf o comp)) 0 (dedup H (srcChunks o.cfg src)).1 :=
+    dict_descr H writer comp o src
+  have hst : stored = (dedup H (srcChunks o.cfg src)).1.map (storedBytes writer (codecOf o comp)) :=
+    dict_stored H writer comp o src
+  have hord : dict.rebuildOrder = (dedup H (srcChunks o.cfg src)).2 := dict_order H writer comp o src
+  have hdl : dict.chunkDescriptors.length = (dedup H (srcChunks o.cfg src)).1.length := by
+    rw [hds, descrFrom_length]
+  have hlt : ∀ i ∈ dict.rebuildOrder, i < (dedup H (srcChunks o.cfg src)).1.length := by
+    intro i hi
+    rw [hord] at hi
+    have : i ∈ (dedup H (srcChunks o.cfg src)).2.eraseDups := List.mem_eraseDups.mpr hi
+    rw [inv.first] at this
+    simpa using this
+  refine ⟨rfl, ?_, ?_, ?_, ?_, ?_, rfl, rfl, rfl, rfl, rfl⟩
+  · rw [createArchive_eq, List.length_append]
+    show hdr.length + stored.flatten.length = _
+    rw [hds, descrFrom_archiveSize, sum_stored, hst]
+  · rw [hdl, hst, List.length_map]
+  · generalize dict.chunkDescriptors = ds at hds hdl
+    subst hds
+    intro i hi
+    have hi' : i < (dedup H (srcChunks o.cfg src)).1.length := by omega
+    rw [descrFrom_getElem _ _ _ _ _ _ hi']
+    refine ⟨?_, storedBytes_length_le _ _ _, ?_⟩
+    · simp only [runningOffset, descrFrom_running, Nat.zero_add]
+    · exact (srcChunks_mem o.cfg hv src _ (inv.sub _ (List.getElem_mem hi'))).1
+  · intro i hi
+    rw [hdl]; exact hlt i hi
+  · rw [← srcChunks_sum o.cfg hv src, hord]
+    apply sum_map_pointwise _ _ _ _ inv.len
+    intro i h1 h2
+    obtain ⟨j, u, hj, hu, hH⟩ := inv.idx i h2
+    rw [List.getElem?_eq_getElem h1] at hj
+    cases hj
+    obtain ⟨hjl, rfl⟩ := List.getElem?_eq_some_iff.mp hu
+    have hmem : (dedup H (srcChunks o.cfg src)).1[(dedup H (srcChunks o.cfg src)).2[i]] ∈ srcChunks o.cfg src :=
+      inv.sub _ (List.getElem_mem hjl)
+    have heq := hinj' _ hmem _ (List.getElem_mem h2) hH
+    have hjl' : (dedup H (srcChunks o.cfg src)).2[i] < dict.chunkDescriptors.length := by omega
+    rw [List.getElem?_eq_getElem hjl']
+    simp only [Option.map_some, Option.getD_some]
+    generalize dict.chunkDescriptors = ds at hds hdl hjl'
+    subst hds
+    rw [descrFrom_getElem _ _ _ _ _ _ hjl]
+    simp only
+    exact congrArg List.length heq
 
 /-- Descriptors are in order of first occurrence and unique by (full) hash. -/
 theorem writer_dedup (H : Bytes → Bytes) (chunks : List Bytes) :
@@ -67,7 +121,9 @@ theorem writer_dedup (H : Bytes → Bytes) (chunks : List Bytes) :
     (∀ u ∈ uniq, u ∈ chunks) ∧
     -- first-occurrence order: the indexes appear in `order` for the first time in ascending order
     (order.eraseDups = List.range uniq.length) := by
-  sorry
+  intro uniq order
+  have inv := WriterDedup.inv_dedup H chunks
+  exact ⟨inv.nodup, inv.len, inv.idx, inv.sub, inv.first⟩
 
 /-- **C01 T1.**  For every source, every valid configuration, hash length, compression setting
 and metadata, and for both writers, the bytes produced are a conforming archive of the source
@@ -87,6 +143,154 @@ theorem createArchive_conforms (H : Bytes → Bytes) (hH : ∀ x, (H x).length =
     Conforms H decomp [] (createArchive H writer comp o src) src ∨
     (∃ c1 ∈ chunkAll o.cfg src, ∃ c2 ∈ chunkAll o.cfg src,
       slice src c1.1 c1.2 ≠ slice src c2.1 c2.2 ∧ H (slice src c1.1 c1.2) = H (slice src c2.1 c2.2)) := by
-  sorry
+  have _ := hw
+  by_cases hcol : ∃ c1 ∈ chunkAll o.cfg src, ∃ c2 ∈ chunkAll o.cfg src,
+      slice src c1.1 c1.2 ≠ slice src c2.1 c2.2 ∧ H (slice src c1.1 c1.2) = H (slice src c2.1 c2.2)
+  · exact .inr hcol
+  left
+  have hinj : ∀ c1 ∈ chunkAll o.cfg src, ∀ c2 ∈ chunkAll o.cfg src,
+      H (slice src c1.1 c1.2) = H (slice src c2.1 c2.2) → slice src c1.1 c1.2 = slice src c2.1 c2.2 := by
+    intro c1 h1 c2 h2 hh
+    by_cases he : slice src c1.1 c1.2 = slice src c2.1 c2.2
+    · exact he
+    · exact absurd ⟨c1, h1, c2, h2, he, hh⟩ hcol
+  have hinj' := srcChunks_inj H o.cfg src hinj
+  have hv := ho.valid
+  obtain ⟨hn1, hn64⟩ := ho.hash_len
+  have inv := WriterDedup.inv_dedup H (srcChunks o.cfg src)
+  have hcks := srcChunks_mem o.cfg hv src
+  have hmax := maxChunk_lt o.cfg ho.u32
+  have hckl : (srcChunks o.cfg src).length ≤ 2 ^ 32 := by
+    unfold srcChunks; rw [List.length_map]; exact hcnt
+  -- the stored-bytes function
+  have hfle := storedBytes_length_le writer (codecOf o comp)
+  have hfne : ∀ c, c ≠ [] → storedBytes writer (codecOf o comp) c ≠ [] := by
+    intro c hc
+    rcases storedBytes_cases writer (codecOf o comp) c with h | ⟨h, -⟩
+    · rw [h]; exact hc
+    · rw [h]; unfold codecOf; split
+      · exact hne c hc
+      · exact hc
+  have hdec : ∀ (c : Bytes) (d : Descr), d.checksum = hashTruncate (hashTruncate (H c) o.hashLen) 64 →
+      d.sourceSize = c.length →
+      decodeChunk H decomp o.compression d (storedBytes writer (codecOf o comp) c) = some c :=
+    fun c d h1 h2 => decodeChunk_stored H hH comp decomp hcodec writer o.compression c o.hashLen hn64 d h1 h2
+  -- the dictionary
+  have hds := dict_descr H writer comp o src
+  have hst := dict_stored H writer comp o src
+  have hord := dict_order H writer comp o src
+  have htot := dict_total H writer comp o src
+  have hck := dict_checksum H writer comp o src
+  have hpar := dict_params H writer comp o src
+  have hmeta := dict_meta H writer comp o src
+  have hver := dict_version H writer comp o src
+  have hcc := dict_compr H writer comp o src
+  have harch := createArchive_eq H writer comp o src
+  rw [harch] at hfit ⊢
+  generalize dictionaryOf H writer comp o src = DD at *
+  obtain ⟨dict, stored⟩ := DD
+  simp only at hds hst hord htot hck hpar hmeta hver hcc hfit ⊢
+  subst hst
+  generalize storedBytes writer (codecOf o comp) = f at *
+  generalize hD : dedup H (srcChunks o.cfg src) = D at *
+  obtain ⟨us, order⟩ := D
+  simp only at hds hord hfit inv ⊢
+  have hbl := buildHeader_length H hH dict
+  have hum : usizeMax = 2 ^ 64 - 1 := rfl
+  rw [List.length_append] at hfit
+  -- facts on the unique chunks
+  have hus : ∀ j (hj : j < us.length), 1 ≤ us[j].length ∧ us[j].length < 2 ^ 32 := by
+    intro j hj
+    have := hcks _ (inv.sub _ (List.getElem_mem hj))
+    omega
+  have hsl := archive_slice (buildHeader H dict none) f us
+  simp only [List.length_append] at hsl
+  -- compression
+  obtain ⟨cc, hcc', hcb1, hcb2, hcfd⟩ : ∃ cc, dict.chunkCompression = some cc ∧ cc.compression < 2 ^ 32 ∧
+      cc.compressionLevel < 2 ^ 32 ∧ compressionFromDict [] cc = .ok o.compression := by
+    rcases ho.compr with hc | ⟨l, hl, hc⟩
+    · rw [hc] at hcc ⊢
+      exact ⟨_, hcc, by decide, by decide, compressionFromDict_none⟩
+    · rw [hc] at hcc ⊢
+      exact ⟨_, hcc, by show Gen.enum_CompressionType_BROTLI < 2 ^ 32; decide, hl,
+        compressionFromDict_brotli l⟩
+  have hwf : DictWF dict := by
+    refine ⟨by rw [hver]; exact version_utf8, by rw [htot]; exact hsrc, ?_, ?_, ?_, ?_,
+      by rw [hmeta]; exact ho.meta_utf8, by rw [hmeta]; exact ho.meta_sorted, by omega⟩
+    · intro p hp
+      rw [hpar] at hp; cases hp
+      exact paramsOf_bounds o.cfg o.hashLen ho.u32 ho.accepted hn64
+    · intro c hc
+      rw [hcc'] at hc; cases hc
+      exact ⟨hcb1, hcb2⟩
+    · intro i hi
+      rw [hord] at hi
+      have := inv.order_lt i hi
+      have := inv.count
+      simp only at *
+      omega
+    · intro c hc
+      rw [hds] at hc
+      obtain ⟨j, hj, rfl⟩ := descr_mem H o.hashLen f us c hc
+      have := hus j hj
+      have := hfle us[j]
+      have := (hsl j hj).1
+      simp only
+      omega
+  obtain ⟨a, hopen, hacfg, hahl, hacompr, -, -, hatot, hack, haord, -, -, hachunks⟩ :=
+    tryInit_buildHeader H hH [] dict hwf (us.map f).flatten (paramsOf o.cfg o.hashLen) cc o.cfg
+      o.compression hpar hcc' (configFromParams_paramsOf _ _ ho.accepted) hcfd
+      (by
+        intro i hi
+        rw [hord] at hi
+        rw [hds, descrFrom_length]
+        exact inv.order_lt i hi)
+      (by
+        intro cd hcd
+        rw [hds] at hcd
+        obtain ⟨j, hj, rfl⟩ := descr_mem H o.hashLen f us cd hcd
+        have := hfne us[j] (by intro h; have := (hus j hj).1; rw [h] at this; simp at this)
+        simp only
+        exact Nat.pos_of_ne_zero (fun h => this (List.eq_nil_of_length_eq_zero h)))
+      (by
+        intro cd hcd
+        rw [hds] at hcd
+        obtain ⟨j, hj, rfl⟩ := descr_mem H o.hashLen f us cd hcd
+        have := (hsl j hj).1
+        simp only
+        omega)
+      (by omega)
+  have hac : a.chunks = (descrFrom H o.hashLen f 0 us).map (openDescr (buildHeader H dict none).length) := by
+    rw [hachunks, hds]; rfl
+  rw [paramsOf_hashLen] at hahl
+  refine ⟨a, srcChunks o.cfg src, hopen, ?_, ?_⟩
+  · refine ⟨(srcChunks_flatten o.cfg hv src).symm, ?_, by rw [haord, hord]; exact inv.len, ?_,
+      by rw [hatot, htot], by rw [hahl]; exact ⟨hn1, hn64⟩, ?_,
+      by rw [hack, hck, hashTruncate_of_le _ _ (Nat.le_of_eq (hH src))], by rw [hacfg]; exact hv⟩
+    · intro c hc h
+      have := (hcks c hc).1
+      rw [h] at this; simp at this
+    · intro i hi
+      obtain ⟨j, u, hj, hu, hHu⟩ := inv.idx i hi
+      obtain ⟨hjl, rfl⟩ := List.getElem?_eq_some_iff.mp hu
+      have heq := hinj' _ (inv.sub _ (List.getElem_mem hjl)) _ (List.getElem_mem hi) hHu
+      simp only at heq hj
+      refine ⟨j, openAt H o.hashLen f us (buildHeader H dict none).length j hjl,
+        by rw [haord, hord]; exact hj, by rw [hac]; exact open_getElem? _ _ _ _ _ _ _, ?_, ?_⟩
+      · simp only [openAt]; rw [heq]
+      · simp only [openAt]; rw [hahl, hashTruncate_open _ _ (hH _) hn64, heq]
+    · intro d hd
+      rw [hac] at hd
+      obtain ⟨j, hj, rfl⟩ := open_mem _ _ _ _ _ _ hd
+      refine ⟨us[j], inv.sub _ (List.getElem_mem hj), rfl, ?_⟩
+      simp only [openAt]; rw [hahl, hashTruncate_open _ _ (hH _) hn64]
+  · intro d hd
+    rw [hac] at hd
+    obtain ⟨j, hj, rfl⟩ := open_mem _ _ _ _ _ _ hd
+    obtain ⟨h1, h2⟩ := hsl j hj
+    simp only [openAt, List.length_append]
+    refine ⟨h1, us[j], ?_, rfl⟩
+    rw [h2, hacompr]
+    exact hdec us[j] _ rfl rfl
 
 end Bita.Proofs
